@@ -120,7 +120,7 @@ def cmd_setup(args):
     lists = layout_checks.family("quick")
     import hashlib, json as _json
     tag = hashlib.sha256(_json.dumps(lists).encode()).hexdigest()[:10]
-    for k, path, n in layout_checks.gen_tus(lists, 32, tag):
+    for k, path, n in layout_checks.gen_tus(lists, 48, tag):
         jobs["layout_%s_%d" % (tag, k)] = ("layout.cpp", ["LAYOUT_INC=%s" % path], "layout_%s_%d" % (tag, k), layout_checks.LAYOUT_FLAGS)
     res = C.build_many(list(jobs.values()))
     bad = [n for n, (path, dis, log) in res.items() if path is None]
